@@ -378,6 +378,7 @@ class Registry:
         if first.t[0] in ("list", "tuple") and len(gens) == 1:
             out = []
             saved = dict(eng.bound)
+            symbolic_filter = False
             try:
                 for e in first.x:
                     self.bind_target(eng, gens[0].target, e)
@@ -386,12 +387,16 @@ class Registry:
                     if z3.is_false(cond):
                         continue
                     if not z3.is_true(cond):
-                        raise OutOfSubset("symbolic filter over concrete list")
+                        symbolic_filter = True  # fall back to the membership view of the list
+                        break
                     elt = node.elt if not isinstance(node, ast.DictComp) else ast.Tuple(elts=[node.key, node.value], ctx=ast.Load())
                     out.append(eng.ev1(elt, st))
             finally:
                 eng.bound = saved
-            return dict(concrete=out)
+            if not symbolic_filter:
+                return dict(concrete=out)
+            if not first.x:
+                return dict(concrete=[])
         consts, member = [], []
         saved = dict(eng.bound)
         eng.qdepth = getattr(eng, "qdepth", 0) + 1
@@ -646,12 +651,12 @@ def _inline_call(self, eng, c, cs_vars, st, node):
     st.stack.append(st.vars)
     st.vars = dict(cs_vars)
     saved = (eng.c, eng.mod, eng.cls, eng.loop_ord, eng.fn)
-    eng.c, eng.mod, eng.fn = c, modctx, fn
+    eng.c, eng.mod, eng.fn = c, modctx, _ex.strip(fn)
     eng.cls = c.qualname.split(".")[0] if "." in c.qualname else None
     eng.loop_ord = 0
     saved_abn = eng._abn
     try:
-        finals = eng.run_block(_ex.strip(fn).body, [st])
+        finals = eng.run_block(eng.fn.body, [st])
     finally:
         eng.c, eng.mod, eng.cls, eng.loop_ord, eng.fn = saved
         eng._abn = saved_abn
